@@ -56,6 +56,11 @@ theorem cache_inv (P : Profile) (σ : Settings) (n m : Nat) (q : Query) (s : St)
     refine ⟨h.1, ?_⟩
     show answerOk m (.cholesky u) (cholesky P m u s).2
     rw [h.2]; simp [answerOk]
+  | cholHook u =>
+    have h := cholHook_ok P m u s hs
+    refine ⟨h.1, ?_⟩
+    show answerOk m (.cholHook u) (cholHook P m u s).2
+    rw [h.2]; simp [answerOk]
   | root c =>
     have h := good_root P σ n m c s hs
     refine ⟨h.1, ?_⟩
@@ -134,7 +139,7 @@ theorem history_transparent (P : Profile) (n m : Nat) (h : List (Settings × Que
 
 /-- Queries whose specification pins the answer uniquely. -/
 def Query.unique : Query → Bool
-  | .toDense | .cholesky _ | .svd | .eigh | .iql | .sample | .pure => true
+  | .toDense | .cholesky _ | .cholHook _ | .svd | .eigh | .iql | .sample | .pure => true
   | _ => false
 
 /-- **history_transparent, exact form**: for uniquely determined answers (dense matrix, Cholesky factor of the
